@@ -108,6 +108,10 @@ var c09BinEntries = []c09BinEntry{
 		_, used, err := bt.NewTxFromStream(b)
 		return c09Result{int64(used), -1, err}
 	}},
+	{"NewTxFromString", "tx", func(b []byte, _ int) c09Result {
+		_, err := bt.NewTxFromString(hex.EncodeToString(b))
+		return c09Result{-1, -1, err}
+	}},
 	{"Tx.ReadFrom", "tx", c09Reader(func(r io.Reader) (int64, error) { return new(bt.Tx).ReadFrom(r) })},
 	{"Txs.ReadFrom", "list", c09Reader(func(r io.Reader) (int64, error) { return new(bt.Txs).ReadFrom(r) })},
 	{"Input.ReadFrom", "in", c09Reader(func(r io.Reader) (int64, error) { return new(bt.Input).ReadFrom(r) })},
@@ -1098,7 +1102,7 @@ func init() {
 		var bigs []big
 		for _, v := range []uint64{1 << 28, 1 << 30} {
 			bigs = append(bigs,
-				big{"NewTxFromBytes", "tx", "unlock-len", v}, big{"NewTxFromStream", "tx", "lock-len", v}, big{"Tx.ReadFrom", "tx", "prev-len", v},
+				big{"NewTxFromBytes", "tx", "unlock-len", v}, big{"NewTxFromStream", "tx", "lock-len", v}, big{"NewTxFromString", "tx", "lock-len", v}, big{"Tx.ReadFrom", "tx", "prev-len", v},
 				big{"Txs.ReadFrom", "list", "unlock-len", v}, big{"Txs.ReadFrom", "list", "list-count", v >> 3},
 				big{"Input.ReadFrom", "in", "unlock-len", v}, big{"Input.ReadFromExtended", "in-ext", "prev-len", v}, big{"Output.ReadFrom", "out", "lock-len", v})
 		}
@@ -1134,7 +1138,7 @@ func init() {
 					return "counter bin:" + e.name + ":" + cls + " is zero"
 				}
 			}
-			if e.name != "NewTxFromBytes" && a.Cov["consumed:within-bounds:"+e.name] == 0 {
+			if e.name != "NewTxFromBytes" && e.name != "NewTxFromString" && a.Cov["consumed:within-bounds:"+e.name] == 0 {
 				return "consumed bytes of " + e.name + " were never within bounds (nothing compared?)"
 			}
 		}
